@@ -24,6 +24,10 @@ import AutosarVerif.Lemmas.Hash
 import AutosarVerif.Gen.NamesElemAll
 import AutosarVerif.Gen.NamesAttrAll
 import AutosarVerif.Gen.NamesEnumAll
+import AutosarVerif.Lemmas.Versions
+import AutosarVerif.Lemmas.Spec
+import AutosarVerif.Gen.Versions
+import AutosarVerif.Gen.SpecWf
 
 namespace AV.C18
 open AV.Hash AV.Gen
@@ -78,10 +82,53 @@ theorem C18_enumItem_discriminants_cover :
     Enum.discriminants.flatten.length = Enum.table.nNames ∧ ∀ i, i < Enum.table.nNames → i ∈ Enum.discriminants.flatten :=
   isRange_sound _ _ Enum.discriminants_perm
 
+/-! #### schema versions: value ↔ bit ↔ schema file name (tables regenerated from autosarversion.rs) -/
+theorem C18_version_value_is_bit (v : Nat) (hv : v ∈ versionTable.values) : ∃ k, k < 32 ∧ v = 2 ^ k :=
+  VersionTable.value_is_bit versionTable_ok v hv
+theorem C18_version_values_distinct : versionTable.values.Nodup :=
+  VersionTable.values_nodup versionTable_ok
+theorem C18_version_filename_roundtrip (v : Nat) (hv : v ∈ versionTable.values) :
+    ∃ s, versionTable.fileNameOf v = some s ∧ versionTable.parse s = some v :=
+  VersionTable.filename_roundtrip versionTable_ok v hv
+theorem C18_version_parse_exact (s : List Nat) (v : Nat) (hp : versionTable.parse s = some v) :
+    v ∈ versionTable.values ∧ versionTable.fileNameOf v = some s :=
+  VersionTable.parse_exact versionTable_ok s v hp
+theorem C18_version_from_number_exact :
+    (∀ v ∈ versionTable.values, versionTable.ofU64 v = some v) ∧
+    (∀ n v, versionTable.ofU64 n = some v → n = v ∧ v ∈ versionTable.values) :=
+  VersionTable.ofU64_exact versionTable_ok
+
+/-! #### listed ⇒ found, for every element type and version (generic in the specification,
+instantiated with the regenerated tables; `realSpec_rangesOk` / `realSpec_depthOk` are the
+regenerated well-formedness obligations of those tables) -/
+theorem C18_sub_element_listed_found (t nm : Nat) (e : ETy) (m : Nat) (idx : List Nat) (v : Nat)
+    (hl : (nm, e, m, idx) ∈ realSpec.listSub t) (hv : (v &&& m) ≠ 0) :
+    ∃ e' idx' m', realSpec.findSub t nm v = some (e', idx') ∧ (nm, e', m', idx') ∈ realSpec.listSub t ∧
+      realSpec.subMaskAt t idx' = some m' ∧ (v &&& m') ≠ 0 :=
+  Spec.listed_found realSpec t nm e m idx v hl hv
+theorem C18_attribute_listed_found (t nm cd : Nat) (rq : Bool) (m : Nat)
+    (hl : (nm, cd, rq, m) ∈ realSpec.listAttrs t) :
+    ∃ cd' rq' m', realSpec.findAttr t nm = some (cd', rq', m') ∧ (nm, cd', rq', m') ∈ realSpec.listAttrs t :=
+  Spec.attr_listed_found realSpec t nm cd rq m hl
+theorem C18_dest_value_accepted (r t d : Nat) (h : realSpec.refDestValue r t = some d) :
+    realSpec.verifyDest t d = true ∧
+    ∃ cd rq m items, realSpec.findAttr r realSpec.atDest = some (cd, rq, m) ∧ realSpec.cspec cd = .enum items ∧
+      (items.any fun it => it.1 == d) = true :=
+  Spec.dest_ok realSpec r t d h
+theorem C18_spec_tables_wellformed :
+    SpecData.packed.rangesOk = true ∧ SpecData.packed.allDepthOk = true :=
+  ⟨realSpec_rangesOk, realSpec_depthOk⟩
+
 /-! #### non-vacuity: the tables are inhabited and the functions compute -/
 example : 0 < Elem.table.nNames ∧ 0 < Attr.table.nNames ∧ 0 < Enum.table.nNames := by decide
 -- "DEST" is attribute 6 (see `STRING_TABLE`), found and printed back:
 example : fromBytes hashParams Attr.table [68, 69, 83, 84] = some 6 := by decide +kernel
 example : fromBytes hashParams Attr.table [68, 69, 83, 85] = none := by decide +kernel
+
+-- the version table is inhabited and 0x100000 (Autosar_00053) maps to its file name and back
+example : versionTable.values.length = 21 := by decide
+example : (0x100000 : Nat) ∈ versionTable.values := by decide
+-- the root type lists sub-elements, so the hypotheses of `C18_sub_element_listed_found` are satisfiable
+example : (realSpec.listSub (realSpec.defType realSpec.rootDef)).length > 0 := by decide +kernel
 
 end AV.C18
